@@ -550,7 +550,9 @@ pub fn generate(group: &str, r: &mut Rng, n: usize) -> Vec<Value> {
                     let mut raw: Vec<(u64, i64)> = vec![];
                     for id in &ids { if r.chance(2, 3) { let p = r.range(-2 * den, 2 * den); raw.push((*id, p)); terms.push(json!({"id": id, "c": red(p)})); } }
                     // un-normalised message: the same variable listed twice (the function is the sum of its listed terms)
-                    if !raw.is_empty() && r.chance(1, 4) {
+                    // (only with binary-fraction coefficients: merging 5/6 and -11/6 in floating point gives -0.9999999999999999,
+                    //  one ulp off the exact -1, which the trace's number domain deliberately does not identify with -1)
+                    if !raw.is_empty() && [1, 2, 4].contains(&den) && r.chance(1, 3) {
                         let id = raw[r.below(raw.len() as u64) as usize].0;
                         let p = r.range(-2 * den, 2 * den);
                         raw.push((id, p));
